@@ -106,7 +106,7 @@ impl<T: ?Sized> Mutex<T> {
         self.wait_for_holder();
         *self.held() = true;
         *VERIF_ACQUIRED.get() += 1;
-        ArcMutexGuard { m: self.clone(), _raw: std::marker::PhantomData }
+        ArcMutexGuard { m: Arc::as_ptr(self), _raw: std::marker::PhantomData }
     }
     pub fn try_lock_arc_for(self: &Arc<Self>, _d: Duration) -> Option<ArcMutexGuard<RawMutex, T>> {
         if *self.held() {
@@ -121,7 +121,7 @@ impl<T: ?Sized> Mutex<T> {
         }
         *self.held() = true;
         *VERIF_ACQUIRED.get() += 1;
-        Some(ArcMutexGuard { m: self.clone(), _raw: std::marker::PhantomData })
+        Some(ArcMutexGuard { m: Arc::as_ptr(self), _raw: std::marker::PhantomData })
     }
 }
 
@@ -145,24 +145,28 @@ impl<T: ?Sized> Drop for MutexGuard<'_, T> {
     }
 }
 
+/// The real guard owns a clone of the Arc. The model keeps a plain pointer instead: every harness
+/// keeps the owning Arc alive for the whole scenario, and reference-count traffic on the mutex
+/// (whose last drop would run the whole drop glue of the protected value on every symbolic path)
+/// is not what any property is about.
 pub struct ArcMutexGuard<R, T: ?Sized> {
-    m: Arc<Mutex<T>>,
+    m: *const Mutex<T>,
     _raw: std::marker::PhantomData<R>,
 }
 unsafe impl<R, T: ?Sized + Send> Send for ArcMutexGuard<R, T> {}
 impl<R, T: ?Sized> Deref for ArcMutexGuard<R, T> {
     type Target = T;
     fn deref(&self) -> &T {
-        unsafe { &*self.m.data.get() }
+        unsafe { &*(*self.m).data.get() }
     }
 }
 impl<R, T: ?Sized> DerefMut for ArcMutexGuard<R, T> {
     fn deref_mut(&mut self) -> &mut T {
-        unsafe { &mut *self.m.data.get() }
+        unsafe { &mut *(*self.m).data.get() }
     }
 }
 impl<R, T: ?Sized> Drop for ArcMutexGuard<R, T> {
     fn drop(&mut self) {
-        *self.m.held() = false;
+        unsafe { *(*self.m).held() = false };
     }
 }
